@@ -11,10 +11,12 @@ package main
 
 import (
 	"bufio"
+	"crypto/rsa"
 	stdx509 "crypto/x509"
 	"encoding/asn1"
 	"encoding/json"
 	"fmt"
+	"math/big"
 	"net/mail"
 	"net/url"
 	"os"
@@ -27,6 +29,7 @@ import (
 
 	"crypto/x509/pkix"
 
+	zdsa "github.com/zmap/zcrypto/dsa"
 	"github.com/zmap/zcrypto/x509"
 	"github.com/zmap/zlint/v3/lint"
 	"github.com/zmap/zlint/v3/util"
@@ -271,6 +274,43 @@ func pathValue(c *x509.Certificate, path string) (reflect.Value, string, bool) {
 	return v, proj, true
 }
 
+func keyPseudoField(c *x509.Certificate, name string) (string, bool) {
+	big0 := func(b *big.Int) string {
+		if b == nil {
+			return "0"
+		}
+		return b.String()
+	}
+	rk, isRSA := c.PublicKey.(*rsa.PublicKey)
+	dk, isDSA := c.PublicKey.(*zdsa.PublicKey)
+	switch name {
+	case "type":
+		switch {
+		case isRSA:
+			return "1", true
+		case isDSA:
+			return "2", true
+		}
+		return "0", true
+	case "rsa.N":
+		if isRSA && rk != nil {
+			return big0(rk.N), true
+		}
+		return "0", true
+	case "rsa.E":
+		if isRSA && rk != nil {
+			return fmt.Sprint(rk.E), true
+		}
+		return "0", true
+	case "dsa.P", "dsa.Q", "dsa.G", "dsa.Y":
+		if isDSA && dk != nil {
+			return big0(map[string]*big.Int{"dsa.P": dk.P, "dsa.Q": dk.Q, "dsa.G": dk.G, "dsa.Y": dk.Y}[name]), true
+		}
+		return "0", true
+	}
+	return "", false
+}
+
 func oidDots(v reflect.Value) string {
 	parts := make([]string, v.Len())
 	for i := range parts {
@@ -286,6 +326,17 @@ func bodyView(c *x509.Certificate, fields []bodyField) (string, bool) {
 	var bools, ints, strs, lists, times []string
 	var baseStrings []string
 	for id, f := range fields {
+		if strings.HasPrefix(f.path, "PublicKey#") {
+			// pseudo fields of the key object: the dynamic type tag (shared with extract/bodies.go: 1 = *rsa.PublicKey,
+			// 2 = *zcrypto/dsa.PublicKey, 0 = anything else) and the integer fields of the key of that type (0 when the
+			// key has another type: the model never reads them then — it panics instead, as the nil dereference would)
+			n, ok := keyPseudoField(c, f.path[len("PublicKey#"):])
+			if !ok {
+				return "", false
+			}
+			ints = append(ints, fmt.Sprintf("%d=%s", id, n))
+			continue
+		}
 		v, proj, ok := pathValue(c, f.path)
 		if !ok {
 			return "", false
@@ -553,6 +604,34 @@ func subBodies(out string, seed uint64, tier string, arg string) {
 			if rng.Intn(7) == 0 {
 				spec.ExtraExt = append(spec.ExtraExt, pkix.Extension{Id: oidOf(o), Critical: rng.Bool(), Value: []byte{0x30, 0x00}})
 			}
+		}
+		// a chosen RSA key in a third of the kit certificates: modulus lengths around every threshold the key rules test,
+		// even moduli, moduli with a small prime factor, boundary exponents (the rules read N and E of the parsed key)
+		if rng.Intn(3) == 0 {
+			bitsPool := []int{511, 512, 1023, 1024, 1025, 2040, 2047, 2048, 2049, 2050, 2052, 2055, 2056, 3071, 3072, 3073, 4096}
+			bits := bitsPool[rng.Intn(len(bitsPool))]
+			n := new(big.Int).SetBytes(rng.Bytes((bits + 7) / 8))
+			n.SetBit(n, bits-1, 1)
+			for b := n.BitLen() - 1; b >= bits; b-- {
+				n.SetBit(n, b, 0)
+			}
+			switch rng.Intn(4) {
+			case 0:
+				n.SetBit(n, 0, 0) // even
+			case 1:
+				n.SetBit(n, 0, 1)
+			case 2:
+				// a multiple of a small odd number, same length
+				d := big.NewInt(int64(3 + 2*rng.Intn(380)))
+				q := new(big.Int).Div(n, d)
+				m := new(big.Int).Mul(q, d)
+				if m.BitLen() == bits {
+					n = m
+				}
+			}
+			ePool := []int{1, 2, 3, 4, 5, 17, 65535, 65536, 65537, 65538, 65539, 1<<31 - 1}
+			spec.PubKey = &rsa.PublicKey{N: n, E: ePool[rng.Intn(len(ePool))]}
+			rep.count("kit-rsa-key")
 		}
 		der, err := BuildCert(spec)
 		if err != nil {
